@@ -446,7 +446,8 @@ def run(tier, seed, replay_cases=None):
                    not unknown_fails, "\n".join(unknown_fails[:6]))
         # failures on texts of the lexical forms first (they are the clearest witnesses)
         order = {"integer-exact": 0, "float-prefixed": 0, "bool": 0, "float-special": 0, "float-zero": 0, "format-parse": 0,
-                 "integer-from-u64": 0, "float-from-u64": 0, "u64-print-parse": 0}
+                 "integer-from-u64": 0, "float-from-u64": 0, "u64-print-parse": 0,
+                 "to-string-roundtrip": 0, "serialize-roundtrip": 0}
         unknown_fails.sort(key=lambda l: order.get(l.split(" ")[1], 1))
         prop_fail += unknown_fails
         ctx.coverage["oracle_failures_in_known_classes"] = {k: len(v) for k, v in known_hits.items()}
@@ -503,7 +504,13 @@ def run(tier, seed, replay_cases=None):
                            "broken_obligations": ctx.broken, "model_vs_implementation": corr_diff,
                            "how_to_replay": "./check C20 --replay <this file>   (or: avh values eval <file with the cases>)"})
         else:
+            # no input violates the property: the direct oracle (bit-level round trip of to_string / serialize_internal /
+            # format->parse over the whole stream, which always contains -0.0, +-inf, NaNs, subnormals, max finite) held
+            rt_classes = [c for c in ctx.coverage.get("input_classes", []) if c.startswith(("format:", "roundtrip:"))]
             ctx.violation({"property": "C20", "kind": "obligation", "broken_obligations": ctx.broken,
+                           "failing_input_search": "round-trip oracle (parse(format(x)) == x at bit level, same value type) held on every value of the stream; "
+                                                   "a difference between model and implementation below is a spelling / behaviour difference without a property failure on the explored inputs",
+                           "roundtrip_oracle_classes": rt_classes,
                            "model_vs_implementation": corr_diff,
                            "cases": [d.split(" impl=")[0] for d in corr_diff],
                            "detail": [o for o in ctx.obligations if not o[1]]}, found_input=False)
